@@ -44,7 +44,8 @@ class ReplyDomain(Domain):
 
     def attr_load(self, objval, node, state):
         if is_self_attr(node, "default_noreply"):
-            return Const(self.noreply)
+            d = getattr(self, "default_noreply", None)
+            return Const(self.noreply if d is None else d)
         if isinstance(objval, Const):
             return ("cmeth", objval, node.attr)
         return TOP
@@ -221,7 +222,7 @@ def _show(v):
     return str(v)
 
 
-def script_eval(prog, mname, replies, nkeys=2, noreply=False, ignore_exc=False, full=False, oneshot=False, fault=None, alias=False):
+def script_eval(prog, mname, replies, nkeys=2, noreply=False, ignore_exc=False, full=False, oneshot=False, fault=None, alias=False, noreply_arg="unset", default_noreply=None):
     """Evaluate any public wire method of Client end to end against a scripted sequence of reply lines / data blocks.
     -> (returned values, exception classes)"""
     f = prog.method("Client", mname)
@@ -229,6 +230,7 @@ def script_eval(prog, mname, replies, nkeys=2, noreply=False, ignore_exc=False, 
     direct, readers = exchange.recv_reaching_functions(prog)
     dom = StoreDomain(prog, f, replies, noreply, exn, exn, readers)
     dom.ignore_exc = ignore_exc
+    dom.default_noreply = default_noreply  # None: self.default_noreply is whatever `noreply` says
     dom.fault = fault  # None | 'connect' | 'send' | 'deserialize'
     ks = tuple(Opaque("K%d" % (i + 1)) for i in range(nkeys))
     if alias:
@@ -250,6 +252,8 @@ def script_eval(prog, mname, replies, nkeys=2, noreply=False, ignore_exc=False, 
             new_object(env, p.name, "dict", DictV(()))
         else:
             env[p.name] = Val("arg:" + p.name)
+    if noreply_arg != "unset" and f.param("noreply") is not None:
+        env["noreply"] = Const(noreply_arg)  # the value the caller passes for `noreply` (None = not given)
     outs = Interp(dom, f.node, prog).run(Env(env))
     if full:
         return outs
@@ -305,7 +309,7 @@ def const_is(want):
     return lambda v: isinstance(v, Const) and v.v == want and type(v.v) is type(want)
 
 
-def storage_rows(prog, r3, keying_only=False):
+def storage_rows(prog, r3, keying_only=False, tier="quick"):
     """Decision rows of the storage family (also C04.R3): evaluated through the store exchange on exact key
     collections, the reply line of each command decides the value reported under *that* command's key."""
     import itertools
@@ -330,7 +334,7 @@ def storage_rows(prog, r3, keying_only=False):
         st, got, w = judge(script_eval(prog, mname, (), nkeys=1, full=True), "noret", None)
         settle(r3, st, "Client.%s: no reply -> no result" % mname, "Client.%s:reply:<none>" % mname, "Client.%s %s although no reply line was received" % (mname, got), f, w)
     f = prog.method("Client", "set_many")
-    for n in (0, 1, 2):
+    for n in ((0, 1, 2, 3) if tier == "thorough" else (0, 1, 2)):
         ks = tuple(Opaque("K%d" % (i + 1)) for i in range(n))
         for replies in itertools.product((b"STORED", b"NOT_STORED"), repeat=n):
             n_rows += 1
@@ -465,7 +469,7 @@ def run(chk):
             else:
                 st, got, w = judge(outs, "ret", const_is(want))
             settle(r3, st, "Client.%s: reply %r -> %r" % (mname, reply, want), "Client.%s:reply:%s" % (mname, reply.decode().split(" ")[0]), "Client.%s %s for the server reply %r; the documented result is %r" % (mname, got, reply, want), f, w)
-    n_rows += storage_rows(prog, r3)
+    n_rows += storage_rows(prog, r3, tier=chk.tier)
     n_rows += retrieval_rows(prog, r3)
     r3.count("rows", n_rows)
 
@@ -486,23 +490,19 @@ def run(chk):
         ok = p is not None and isinstance(p.default, ast.Constant) and p.default.value is want
         r4.expect(ok, "Client.%s(noreply=%r)" % (mname, want), "Client.%s:noreply-default" % mname, "the default of noreply in Client.%s is %s; documented: %r%s" % (mname, node_src(p.default) if p is not None and p.default is not None else None, want, " (= default_noreply)" if want is None else ""), fn=f, node=f.node)
         if want is None:
-            dom = wire.evaluate(prog, f)
-            bad = None
-            seen = 0
-            for ev in dom.events:
-                st = ev["state"]
-                isnone = st.get(("isnone", wire.P("noreply")), None)
-                a = ev["noreply_arg"]
-                if not [c for c in wire.commands_of(ev["wire"]) if c]:
-                    continue
-                seen += 1
-                if isnone is True and a != wire.SelfAttr("default_noreply"):
-                    bad = "when noreply is None the value passed on is %s, not self.default_noreply" % wire.describe(a)
-                if isnone is None:
-                    bad = "noreply is used without the `is None` test that resolves it to self.default_noreply (value passed on: %s)" % wire.describe(a)
-                if isnone is False and a != wire.P("noreply"):
-                    bad = "an explicit noreply is replaced by %s" % wire.describe(a)
-            r4.expect(bad is None and seen > 0, "Client.%s resolves noreply=None to self.default_noreply before building and sending" % mname, "Client.%s:noreply-resolution" % mname, "Client.%s: %s" % (mname, bad or "no wire variant"), fn=f, node=f.node)
+            # interpreted end to end: noreply=None behaves as self.default_noreply says, an explicit value wins over it
+            # (that the same value puts ` noreply` on the wire is the coupling rule C01.R2b, included below)
+            nk, rep = [(n, r_) for n, r_ in spec.CALL_SCRIPTS[mname] if r_][0]
+            problems = []
+            for given, dflt in ((None, True), (None, False), (True, False), (False, True)):
+                effective = dflt if given is None else given
+                outs = script_eval(prog, mname, () if effective else rep, nkeys=nk, noreply_arg=given, default_noreply=dflt, full=True)
+                rets = outs.of("ret")
+                reads = {s_.get("#nread", 0) for s_, v, t in rets} | {1 for s_, e, t in outs.of("exc") if s_.get("#overread", 0)}
+                want_reads = {0} if effective else {len(rep)}
+                if not rets or reads != want_reads:
+                    problems.append("with noreply=%r and default_noreply=%r the call %s (expected: %s)" % (given, dflt, "reads %s reply item(s)" % sorted(reads) if rets else "does not return", "no reply is awaited" if effective else "the %d reply item(s) are read" % len(rep)))
+            r4.expect(not problems, "Client.%s: noreply=None means self.default_noreply, an explicit noreply wins" % mname, "Client.%s:noreply-resolution" % mname, "Client.%s: %s" % (mname, "; ".join(problems)), fn=f, node=f.node)
     # ------------------------------------------------------------------ R5 error replies are raised, for every reply line
     r5 = chk.rule("C05.R5", "error replies: ERROR / CLIENT_ERROR / SERVER_ERROR lines raise the documented exception, and every reply line read by an exchange passes that test before it is interpreted")
     re_fn = prog.method("Client", "_raise_errors")
